@@ -60,6 +60,13 @@ CLAIMED.update({
         note="Trusted: the interpreter's tree bookkeeping; thread/task hand-offs use Frame::current(rt.ctxt()), the documented way to carry ambient context."),
 })
 
+CLAIMED.update({
+    "C20": dict(engine="slot-miri", design="5/C20", cmd="c20",
+        technique="deterministic simulation under miri's seeded scheduler: racing initialisers and observers over a fresh AmbientSlot, one miri seed = one exact schedule, with weak-memory emulation and data-race detection",
+        text="A small program races 2-4 initialisers (try_init_slot, and one init_slot under catch_unwind) with 1-3 observers that read the five components, emit an event and open a span through slot.get() and flush, each component of configuration i tagged i. Run under cargo miri with many seeds x several preemption rates x workload shapes from VERIF_SEED; miri interprets the real OnceLock and the unsafe cast in AmbientSlot::get and preempts at basic-block granularity. Oracle: exactly one attempt wins, losers fail in their documented way and never receive an event or a filter call, nothing is observed before initialisation, once any thread has seen the slot enabled every later observation on every thread shows all five components of the winner together, no data race or UB.",
+        note="Trusted: miri's scheduler/weak-memory model as a stand-in for OS schedules; leak check off because the slot is leaked for 'static; -Zmiri-many-seeds aborts remaining seeds at the first failure."),
+})
+
 PENDING = {
     "C03": "check not built yet (ctx engine in progress); will be claimed",
     "C04": "check not built yet (ctx engine in progress); will be claimed",
@@ -101,7 +108,7 @@ def main():
     na = [{"property_id": k, "reason": v} for k, v in sorted({**NA, **pending}.items())]
     manifest = {
         "version": 1,
-        "setup_cmd": "cd /verif/sim && CARGO_NET_OFFLINE=true cargo build --release --offline",
+        "setup_cmd": "cd /verif/sim && CARGO_NET_OFFLINE=true cargo build --release --offline && cd /verif/slot && CARGO_NET_OFFLINE=true cargo +nightly miri setup && MIRIFLAGS='-Zmiri-ignore-leaks' CARGO_NET_OFFLINE=true cargo +nightly miri run --offline -- 1",
         "hooks": {
             "guard": GUARD,
             "enable": "RUSTFLAGS --cfg emit_rs_emit_verif, set in /verif/sim/.cargo/config.toml ([build] rustflags); the simulator crate depends on /repo crates by path",
@@ -120,6 +127,8 @@ def main():
              "kind_free_text": "generated guard operation sequences and exit paths under scripted clocks"},
             {"name": "ctx-spans-traceparent", "path": "/verif/sim/src/span_interp.inc.rs", "serves_properties": ["C18"],
              "kind_free_text": "generated span trees over the emit_traceparent runtime pieces with scripted sampler and incoming headers"},
+            {"name": "slot-miri", "path": "/verif/slot/src/main.rs", "serves_properties": ["C20"],
+             "kind_free_text": "tagged racing initialisers/observers over AmbientSlot run under cargo miri (seeded scheduler, many seeds x preemption rates), driven by tools/c20.py"},
             {"name": "fsim-faults", "path": "/verif/sim/src/fsim.rs", "serves_properties": ["C10"],
              "kind_free_text": "real emit_file worker over a fault-injecting in-memory filesystem (written vs synced, durable vs volatile entries); single-fault enumeration per generated history + sampled multi-fault sequences"},
             {"name": "fsim-rolling", "path": "/verif/sim/src/fsim.rs", "serves_properties": ["C11"],
